@@ -323,7 +323,13 @@ def run_check(mod: Any, tier: str, seed: int, *, workers: int | None = None, cou
     shrink_budget = 45.0 if tier == "quick" else 120.0
     for a in viols[:6]:
         v = a["violation"]
-        small, tries = shrink(mod, v["doc"], v["class"], wall=shrink_budget)
+        start_doc = v["doc"]
+        narrow = getattr(mod, "narrow", None)
+        if narrow is not None:
+            nd = narrow(start_doc, v["class"], v["detail"])
+            if nd is not None and _has_class(mod, nd, v["class"])[0]:
+                start_doc = nd
+        small, tries = shrink(mod, start_doc, v["class"], wall=shrink_budget)
         ok, info = _has_class(mod, small, v["class"])
         if not ok:
             small, info = v["doc"], {"detail": v["detail"], "hdigest": v["hdigest"]}
